@@ -134,6 +134,11 @@ pub struct Behav {
     pub panic_only_run: AtomicU64,
     /// wait (bounded) inside `run` until this many systems are inside at once
     pub rendezvous: AtomicUsize,
+    /// 1 + tag of the one system this one waits for (bounded) inside `run`; 0 = nobody in particular
+    pub partner: AtomicUsize,
+    /// this system has entered `run` since the behaviour was last reset (sticky: a partner that
+    /// comes and goes between two polls is still seen)
+    pub entered: AtomicBool,
     pub runs: AtomicU64,
     pub setups: AtomicU64,
     /// calls of the system's own (overridden) `System::setup`
@@ -233,6 +238,8 @@ impl Shared {
             b.panic_mode.store(0, SeqCst);
             b.panic_only_run.store(0, SeqCst);
             b.rendezvous.store(0, SeqCst);
+            b.partner.store(0, SeqCst);
+            b.entered.store(false, SeqCst);
         }
     }
     pub fn reset_state(&self) {
@@ -387,13 +394,14 @@ impl<'a> System<'a> for HSys {
         b.runs.fetch_add(1, SeqCst);
         let n = sh.inside.fetch_add(1, SeqCst) + 1;
         sh.max_inside.fetch_max(n, SeqCst);
-        struct Leave<'s>(&'s Shared);
+        struct Leave<'s>(&'s Shared, usize);
         impl Drop for Leave<'_> {
             fn drop(&mut self) {
                 self.0.inside.fetch_sub(1, SeqCst);
             }
         }
-        let _leave = Leave(&sh);
+        b.entered.store(true, SeqCst);
+        let _leave = Leave(&sh, d.tag);
         // effect: order-sensitive update of everything written
         let mut sum = 0u64;
         for g in &d.reads {
@@ -411,8 +419,15 @@ impl<'a> System<'a> for HSys {
         if want > 1 {
             let t = Instant::now();
             let lim = Duration::from_micros(sh.rendezvous_timeout_us.load(SeqCst));
-            while sh.max_inside.load(SeqCst) < want && sh.inside.load(SeqCst) < want && t.elapsed() < lim {
-                std::thread::yield_now();
+            let partner = b.partner.load(SeqCst);
+            if partner > 0 {
+                while !sh.behav[partner - 1].entered.load(SeqCst) && t.elapsed() < lim {
+                    std::thread::yield_now();
+                }
+            } else {
+                while sh.max_inside.load(SeqCst) < want && sh.inside.load(SeqCst) < want && t.elapsed() < lim {
+                    std::thread::yield_now();
+                }
             }
         }
         let hold = b.hold_us.load(SeqCst);
